@@ -44,7 +44,8 @@ def run_task(task):
             parts.append(("selftest", net.FALSE))
         return specs.conj(net, parts), {"nodes": len(dump["nodes"]), "edges": len(dump["edges"])}
     cube = [net.bits[i] if v else z3.Not(net.bits[i]) for i, v in task.get("cube", [])]
-    res = explore(net, harness, cube=cube, timebox=task["timebox"], seed=task.get("seed", 0), label=task["label"])
+    res = explore(net, harness, cube=cube, timebox=task["timebox"], seed=task.get("seed", 0), label=task["label"],
+                  start_at=task.get("start_at"), max_classes=task.get("max_classes"))
     return res
 
 
@@ -76,7 +77,7 @@ def tasks(tier, seed, selftest=False):
 
 def main(tier, seed, t0, selftest=False):
     results = common.run_tasks(tasks(tier, seed, selftest))
-    return common.finish(PROP, tier, seed, "model_checking", results, t0, functions=FUNCTIONS,
+    return common.finish(PROP, tier, seed, "model_checking", results, t0, selftest=selftest, functions=FUNCTIONS,
                          bounds={"families": "U2 exhaustive; U3 (3 variables, unrestricted) " + ("to exhaustion" if tier == "thorough" else "time-boxed slice per cube"),
                                  "outside": "n>3; oracle list orders other than canonical/reversed"},
                          assumptions=["clingo enumerates exactly the subset-minimal/maximal models (checked on every representative)",
